@@ -41,14 +41,86 @@ class C18(CtxCheck):
         return out
 
     def _units0(self, tier: str, seed: int) -> list:
-        return super().units(tier, seed) + [{"reuse": True}] + [{"stalled": q, "order": o} for q in (1, 2) for o in ("stalled-first", "stalled-last")]
+        return super().units(tier, seed) + [{"reuse": True}] + [{"stalled": q, "order": o} for q in (1, 2) for o in ("stalled-first", "stalled-last")] + [{"equal_contexts": True}]
 
     def _work0(self, unit: dict, tier: str) -> dict:
         if unit.get("reuse"):
             return self.reuse_unit()
         if "stalled" in unit:
             return self.stalled_unit(unit)
+        if unit.get("equal_contexts"):
+            return self.equal_contexts_unit()
         return super().work(unit, tier)
+
+    def equal_contexts_unit(self) -> dict:
+        """A Context subclass with value equality: an outer and a nested context that compare equal are still two contexts, and
+        what is published in one is announced there and on no other context."""
+        from typing import Any
+
+        from ..explore import Chooser, new_summary, reset_determinism, run_main_asyncio
+        from ..reuse import equal_owners_case
+        from ..vloop import Env
+
+        env = Env(Chooser([]), 0)
+        reset_determinism(0)
+        out: dict = {}
+
+        async def main() -> None:
+            from contextlib import AsyncExitStack
+
+            from asphalt.core import Context
+
+            class RequestContext(Context):
+                request_id = 42
+
+                def __eq__(self, other: object) -> bool:
+                    return isinstance(other, RequestContext) and other.request_id == self.request_id
+
+                def __hash__(self) -> int:
+                    return hash(self.request_id)
+
+            import anyio
+
+            fails: list = []
+            got: dict = {"outer": [], "inner": []}
+
+            async def listen(ctx: Any, sink: list, started: anyio.Event) -> None:
+                async with ctx.resource_added.stream_events() as stream:
+                    started.set()
+                    async for ev in stream:
+                        sink.append(ev)
+
+            async with Context():
+                outer = RequestContext()
+                async with outer:
+                    inner = RequestContext()
+                    if inner.resource_added is outer.resource_added:
+                        fails.append(("events", "two distinct contexts that compare equal share one resource_added signal"))
+                    async with inner:
+                        async with anyio.create_task_group() as tg:
+                            for c, k in ((outer, "outer"), (inner, "inner")):
+                                st = anyio.Event()
+                                tg.start_soon(listen, c, got[k], st)
+                                await st.wait()
+                            inner.add_resource(object(), "fresh")
+                            for _ in range(5):
+                                await anyio.lowlevel.checkpoint()
+                            tg.cancel_scope.cancel()
+            if got["outer"]:
+                fails.append(("events", "a publication in the inner context was announced on the (equal but different) outer context"))
+            if len(got["inner"]) != 1 or got["inner"][0].source is not inner:
+                fails.append(("events", f"the inner context's listener received {[(e.resource_name, e.source) for e in got['inner']]}"))
+            out["fails"] = fails
+
+        run_main_asyncio(env, main)
+        s = new_summary()
+        s["evaluations"] = s["transitions"] = s["states"] = s["distinct"] = s["nontrivial"] = 1
+        s["outcomes"] = {"done": 1}
+        if out["fails"]:
+            s["violations"].append({"keys": ["events"], "fails": [["events", f[1]] for f in out["fails"]], "program": {"equal_contexts": True},
+                                    "choices": [], "trace": [], "outcome": "done"})
+            s["keyhist"] = {"events": 1}
+        return s
 
     def stalled_unit(self, unit: dict) -> dict:
         """Two listeners on one context; one of them does not drain its (small) queue during a burst of publications.  Every
@@ -117,8 +189,8 @@ class C18(CtxCheck):
         return summary_for("context", "C18")
 
     def _replay0(self, rec: dict):  # type: ignore[no-untyped-def]
-        if "stalled" in rec.get("program", {}):
-            s = self.stalled_unit(rec["program"])
+        if "stalled" in rec.get("program", {}) or rec.get("program", {}).get("equal_contexts"):
+            s = self.stalled_unit(rec["program"]) if "stalled" in rec["program"] else self.equal_contexts_unit()
             for v in s["violations"]:
                 for f in v["fails"]:
                     print("FAIL", f[0], "-", f[1])
